@@ -640,12 +640,12 @@ func (obj *SparseInt32Vector) ITERATOR_FROM(i int) *SparseInt32VectorIterator {
   return &r
 }
 func (obj *SparseInt32Vector) JOINT_ITERATOR(b ConstVector) *SparseInt32VectorJointIterator {
-  r := SparseInt32VectorJointIterator{obj.ITERATOR(), b.ConstIterator(), -1, Int32{}, nil}
+  r := SparseInt32VectorJointIterator{obj.ITERATOR(), b.ConstIterator(), -1, Int32{}, nil, false}
   r.Next()
   return &r
 }
 func (obj *SparseInt32Vector) JOINT3_ITERATOR(b, c ConstVector) *SparseInt32VectorJoint3Iterator {
-  r := SparseInt32VectorJoint3Iterator{obj.ITERATOR(), b.ConstIterator(), c.ConstIterator(), -1, Int32{}, nil, nil}
+  r := SparseInt32VectorJoint3Iterator{obj.ITERATOR(), b.ConstIterator(), c.ConstIterator(), -1, Int32{}, nil, nil, false}
   r.Next()
   return &r
 }
@@ -718,13 +718,13 @@ type SparseInt32VectorJointIterator struct {
   idx int
   s1 Int32
   s2 ConstScalar
+  ok bool
 }
 func (obj *SparseInt32VectorJointIterator) Index() int {
   return obj.idx
 }
 func (obj *SparseInt32VectorJointIterator) Ok() bool {
-  return !(obj.s1.ptr == nil || obj.s1.GetInt32() == int32(0)) ||
-         !(obj.s2 == nil || obj.s2.GetInt32() == int32(0))
+  return obj.ok
 }
 func (obj *SparseInt32VectorJointIterator) Next() {
   ok1 := obj.it1.Ok()
@@ -745,6 +745,9 @@ func (obj *SparseInt32VectorJointIterator) Next() {
       obj.s2 = obj.it2.GetConst()
     }
   }
+  // the iterator is valid as long as one of the vectors delivered an entry,
+  // regardless of its value
+  obj.ok = obj.s1.ptr != nil || obj.s2 != nil
   if obj.s1.ptr != nil {
     obj.it1.Next()
   }
@@ -778,6 +781,7 @@ func (obj *SparseInt32VectorJointIterator) Clone() *SparseInt32VectorJointIterat
   r.idx = obj.idx
   r.s1 = obj.s1
   r.s2 = obj.s2
+  r.ok = obj.ok
   return &r
 }
 func (obj *SparseInt32VectorJointIterator) CloneConstJointIterator() VectorConstJointIterator {
@@ -796,14 +800,13 @@ type SparseInt32VectorJoint3Iterator struct {
   s1 Int32
   s2 ConstScalar
   s3 ConstScalar
+  ok bool
 }
 func (obj *SparseInt32VectorJoint3Iterator) Index() int {
   return obj.idx
 }
 func (obj *SparseInt32VectorJoint3Iterator) Ok() bool {
-  return !(obj.s1.ptr == nil || obj.s1.GetInt32() == int32(0)) ||
-         !(obj.s2 == nil || obj.s2.GetInt32() == int32(0)) ||
-         !(obj.s3 == nil || obj.s3.GetInt32() == int32(0))
+  return obj.ok
 }
 func (obj *SparseInt32VectorJoint3Iterator) Next() {
   ok1 := obj.it1.Ok()
@@ -839,6 +842,9 @@ func (obj *SparseInt32VectorJoint3Iterator) Next() {
       obj.s3 = obj.it3.GetConst()
     }
   }
+  // the iterator is valid as long as one of the vectors delivered an entry,
+  // regardless of its value
+  obj.ok = obj.s1.ptr != nil || obj.s2 != nil || obj.s3 != nil
   if obj.s1.ptr != nil {
     obj.it1.Next()
   }
